@@ -499,6 +499,14 @@ class Interp:
             return True
         if isinstance(v, GenV):
             return True
+        h = getattr(v, "truthy", None)
+        if h is not None:
+            return h()
+        if hasattr(v, "__len__") and not isinstance(v, (Rec,)):
+            try:
+                return len(v) > 0
+            except TypeError:
+                pass
         return True
 
     # ---- statements
@@ -708,8 +716,9 @@ class Interp:
 
     def x_For(self, st, env):
         it = self.eval(st.iter, env)
-        if isinstance(it, (SeqV, SetV)) and self.loop_hook is not None:
-            return self.loop_hook(self, st, env, it)
+        if (isinstance(it, (SeqV, SetV)) or (hasattr(it, "lo") and hasattr(it, "hi"))) and self.loop_hook is not None:
+            if not (isinstance(it, SeqV) and z3.is_int_value(z3.simplify(it.length))):
+                return self.loop_hook(self, st, env, it)
         items = self.iterate(it)
         broke = False
         for x in items:
@@ -1461,8 +1470,12 @@ class Interp:
     def e_ListComp(self, e, env):
         return self._comp(e, env, "list")
 
+    def seq_or_items(self, v):
+        return v if isinstance(v, SeqV) else self.iterate(v)
+
     def e_GeneratorExp(self, e, env):
-        return GenV(self._comp(e, env, "list"))
+        r = self._comp(e, env, "list")
+        return r if isinstance(r, SeqV) else GenV(r)
 
     def e_SetComp(self, e, env):
         items = self._comp(e, env, "list")
@@ -1483,6 +1496,19 @@ class Interp:
         return d
 
     def _comp(self, e, env, kind):
+        if kind == "list" and len(e.generators) == 1 and not e.generators[0].ifs:
+            g = e.generators[0]
+            src = self.eval(g.iter, env)
+            if isinstance(src, SeqV) and not z3.is_int_value(z3.simplify(src.length)):
+                def get(j, g=g, src=src):
+                    cenv = Env({}, env)
+                    self.assign(g.target, src.get(j), cenv)
+                    self.pure += 1
+                    try:
+                        return self.eval(e.elt, cenv)
+                    finally:
+                        self.pure -= 1
+                return SeqV(src.length, get, "list")
         out = []
 
         def rec(gi, cenv):
@@ -1573,6 +1599,26 @@ class Interp:
             and self.B.is_builtin_binding(env, e.func.id, self)
         ):
             return self._all_any(e.func.id == "all", e.args[0], env)
+        if (
+            isinstance(e.func, ast.Attribute)
+            and isinstance(e.func.value, ast.Name)
+            and e.func.attr in ("append", "extend")
+            and len(e.args) == 1
+        ):
+            tgt = env.lookup(e.func.value.id, self) if self._bound(env, e.func.value.id) else None
+            if isinstance(tgt, SeqV):
+                arg = self.eval(e.args[0], env)
+                if e.func.attr == "append":
+                    new = seq_append(self, tgt, arg)
+                else:
+                    new = tgt
+                    if isinstance(arg, SeqV):
+                        new = seq_concat(self, tgt, arg)
+                    else:
+                        for x in self.iterate(arg):
+                            new = seq_append(self, new, x)
+                self._rebind(env, e.func.value.id, new)
+                return None
         fn = self.eval(e.func, env)
         args = []
         for a in e.args:
@@ -1587,6 +1633,23 @@ class Interp:
             else:
                 kwargs[k.arg] = self.eval(k.value, env)
         return self.call_v(fn, args, kwargs, node=e)
+
+    def _bound(self, env, name):
+        e = env
+        while e is not None:
+            if name in e.vars:
+                return True
+            e = e.parent
+        return False
+
+    def _rebind(self, env, name, val):
+        e = env
+        while e is not None:
+            if name in e.vars:
+                e.vars[name] = val
+                return
+            e = e.parent
+        env.vars[name] = val
 
     def _all_any(self, is_all, gen, env):
         quant = self.B.quantified_range(self, gen, env)
